@@ -87,37 +87,6 @@ func c19Equal(a, b []c19Rule) (bool, string) {
 	return true, ""
 }
 
-// embeddedDupKeyOnly: class predicate of the known finding C19-embedded-dup-key-line: expected and found rules differ
-// ONLY in error lines, and every differing error line is exactly the expected one minus the embedding offset that
-// validateStringMap forgets to add for "duplicated labels/annotations key" (it reports key.Line, not key.Line+offsetLine).
-// The embedding offset is the line of the literal scalar; dl (total shift) = inner wrapper shift + that line, so the
-// found line must be the expected one minus dl (dl = line of the literal scalar in the outer document).
-func embeddedDupKeyOnly(want, got []c19Rule, dl int) bool {
-	if len(want) != len(got) {
-		return false
-	}
-	differs := false
-	for i := range want {
-		a, b := want[i], got[i]
-		if a.Err != b.Err {
-			// an error rule whose error line lacks exactly the embedding offset; for this error the rule's own line
-			// range (rangeFromYamlMaps) lacks it too
-			if a.Err == 0 || b.Err == 0 || a.Err-b.Err != dl {
-				return false
-			}
-			if !(a.First == b.First && a.Last == b.Last) && !(a.First-b.First == dl && a.Last-b.Last == dl) {
-				return false
-			}
-			differs = true
-			b.Err, b.First, b.Last = a.Err, a.First, a.Last
-		}
-		if fmt.Sprintf("%+v", a) != fmt.Sprintf("%+v", b) {
-			return false
-		}
-	}
-	return differs
-}
-
 func runC19(args []string) int {
 	n := argInt(args, "--n", 300)
 	seed := seedFromEnv()
@@ -258,11 +227,8 @@ func runC19(args []string) int {
 				if !e.Descends {
 					what = "YAML embedded in a " + e.Desc + " scalar (lines not preserved / value too short): relaxed mode must not look inside, but reports rules: " + why
 				}
-				if e.Descends && embeddedDupKeyOnly(a, b, e.LineShift) {
-					rep.failKnown(fmt.Sprint(id), what, c, "C19-embedded-dup-key-line")
-				} else {
-					rep.fail(fmt.Sprint(id), what, c)
-				}
+				// (the duplicated-key line class is repaired by 0202885: a recurrence is a violation)
+				rep.fail(fmt.Sprint(id), what, c)
 			}
 			continue
 		}
